@@ -43,6 +43,11 @@ class Lexicon(object):
         self.t_ignore = None
         self.t_error = None
         order = 0
+        def norm(ci, fn):
+            """the helper-inlined body of a method (see engine/normalize.py)"""
+            m = ci.methods.get(fn.name)
+            return m.node if m is not None else fn
+
         for s in lex.node.body:
             if isinstance(s, ast.Assign) and len(s.targets) == 1 and isinstance(s.targets[0], ast.Name):
                 nm = s.targets[0].id
@@ -61,6 +66,7 @@ class Lexicon(object):
                     self.rules.append(TokenRule(nm, pat, "str", s, order))
                     order += 1
             elif isinstance(s, ast.FunctionDef) and s.name.startswith("t_"):
+                s = norm(lex, s)
                 if s.name == "t_error":
                     self.t_error = s
                     continue
@@ -98,6 +104,7 @@ class Lexicon(object):
                 except KeyError:
                     self.precedence = []
             if isinstance(s, ast.FunctionDef) and s.name.startswith("p_"):
+                s = norm(par, s)
                 if s.name == "p_error":
                     self.p_error = s
                     continue
